@@ -266,6 +266,31 @@ def main(tier):
     chk.add_corr("evalPy/atoms-x-inputs", len(reqs), dis)
     chk.evaluations += len(reqs)
 
+    # ---- one-shot iterables: the atoms that only iterate their argument (has_length_p, the emptiness tests, all_p / any_p,
+    # is_iterable_of_p) give on an iterator, a generator or a map object over xs the answer they give on the list xs
+    # (which the stream above ties to the model); surplus / missing items, falsy items and None items included
+    ITER_HEADS = ("haslen", "empty", "notempty", "all", "any", "iterof")
+    seqs = [x for x in V if isinstance(x, (list, tuple)) and len(x) <= 4]
+    seqs += [[0], [None], [1, 2, 0], [1, 0, 0], [0, 0], [None, 1], [1, None], [False, ""], [[], 1], ["", "a"], [1, 2, 3, 0], [0.0], [1, 2, None]]
+    makers = (("iter", iter), ("generator", lambda xs: (e for e in xs)), ("map", lambda xs: map(lambda e: e, xs)))
+    it_cases, it_bad = 0, 0
+    for spec in A:
+        if spec[0] not in ITER_HEADS:
+            continue
+        p = L.real(spec, rec)
+        for xs in seqs:
+            want = L.run(p, list(xs))
+            for mname, mk in makers:
+                got = L.run(p, mk(list(xs)))
+                it_cases += 1
+                if got != want:
+                    it_bad += 1
+                    chk.add_failure({"predicate": L.show(spec), "spec": repr(spec), "value": f"{mname} over {list(xs)!r}"},
+                                    {"what": "on a one-shot iterable the predicate differs from its answer on the list of the same items",
+                                     "on_iterable": L.outcome_wire(got), "on_list": L.outcome_wire(want)}, None)
+    chk.evaluations += it_cases
+    chk.extra["one_shot_iterable_cases"] = it_cases
+
     # PropertyPredicate: the wrapper calls the getter once with the object and returns its answer (model: an instrumented leaf)
     preqs, pexp = [], []
     for i, (dflt, cases) in enumerate([(True, {}), (False, {L.val(1): True}), (False, {L.val("a"): ("raise", AttributeError), L.val(None): True})]):
@@ -386,6 +411,15 @@ def replay(path):
     d = json.load(open(path))
     print(json.dumps(d, indent=1))
     inp = d.get("input") or {}
+    if "spec" in inp and "value" in inp and " over " in inp["value"] and inp["value"].split(" over ")[0] in ("iter", "generator", "map"):
+        ns = {"set": set, "True": True, "False": False, "None": None}
+        kind, lst = inp["value"].split(" over ", 1)
+        spec, xs = eval(inp["spec"], ns), eval(lst, ns)  # noqa: S307
+        mk = {"iter": iter, "generator": lambda v: (e for e in v), "map": lambda v: map(lambda e: e, v)}[kind]
+        p = L.real(spec, L.Recorder())
+        got, want = L.run(p, mk(list(xs))), L.run(p, list(xs))
+        print("on the iterable:", got, " on the list:", want)
+        return 1 if got != want else 0
     if "spec" in inp and "value" in inp:
         ns = {"set": set, "True": True, "False": False, "None": None}
         try:
